@@ -41,6 +41,7 @@ import QEProofs.Lemmas.C10Sv
 import QEProofs.Lemmas.C10Accept
 import QEProofs.Lemmas.C10Round
 import QEProofs.Lemmas.C10Hist
+import QEProofs.Lemmas.C10Law
 namespace QE.C10
 variable {α : Type}
 
@@ -729,5 +730,329 @@ theorem drv_history (q0 : List α) [Add α] [LT α] [DecidableLT α] (h : List (
 
 example : runD ([1, 1] : List Int) [.draw [0, 1], .setQ [0, 3], .draw [0, 1]]
     = [some (some [0, 1]), none, some (some [1, 1])] := by decide +kernel
+
+/-! ## 12. the whole of `simulate_indices` follows the transition law; prefix property -/
+
+/-- **A longer simulation extends the shorter one.** If the kernel returns `p` along `us`, then along
+    `us ++ vs` it returns `p` continued, from the last state of `p`, by the path along `vs` (and fails
+    exactly if that continuation fails): the first `t+1` states depend only on the first `t` uniforms. -/
+theorem path_prefix (step : Nat → α → Option Nat) (us vs : List α) (s : Nat) (p : List Nat)
+    (hp : pathFrom step s us = some p) :
+    ∃ last, p.getLast? = some last ∧
+      pathFrom step s (us ++ vs) = (pathFrom step last vs).map fun q => p.dropLast ++ q :=
+  pathFrom_append step us vs s p hp
+
+example : pathDense ([[1, 4], [4, 4]] : List (List Int)) 0 [0, 4] = some [0, 0, 1] ∧
+    pathDense ([[1, 4], [4, 4]] : List (List Int)) 0 ([0, 4] ++ [2]) = some ([0, 0] ++ [1, 0]) := by
+  decide +kernel
+
+/-- the trajectory is unique: any list that starts at `s` and follows the step along `us` is the one
+    the kernel returns -/
+theorem path_unique (step : Nat → α → Option Nat) (s : Nat) (us : List α) (p p' : List Nat)
+    (h : IsPathOf step s us p) (h' : IsPathOf step s us p') : p = p' := h.unique h'
+
+/-- **`simulate_indices` (dense), every path, full clause.**  `P` square, nonnegative entries, positive
+    row totals; an acceptable request; `ts ≥ 1`; a `(k, ts−1)` array of nonnegative numbers.  Then the
+    call succeeds with the documented `dim` and `k`, and **every** one of the `k` paths has length `ts`,
+    starts at its requested state, stays in the state space, and moves only along transitions of
+    positive probability. Only `x + 0 = x` is used about the addition. -/
+theorem simulate_indices_follows_law_dense [LinearOrder α] [Add α] [Zero α]
+    (hadd0 : ∀ x : α, x + 0 = x) (P : List (List α))
+    (hsq : ∀ row ∈ P, row.length = P.length)
+    (hnn : ∀ row ∈ P, ∀ x ∈ row, (0 : α) ≤ x)
+    (htot : ∀ row ∈ P, ∀ h : cumsum row ≠ [], 0 < (cumsum row).getLast h)
+    (init : Init) (reps : Option Nat) (drawn : List Nat) (ts : Nat) (us : List (List α))
+    (hok : InitOK P.length init reps)
+    (hdrawn : init = .none → docK init reps ≤ drawn.length ∧ ∀ d ∈ drawn, d < P.length)
+    (hts : 0 < ts) (hk : us.length = docK init reps) (hrow : ∀ r ∈ us, r.length + 1 = ts)
+    (hus : ∀ r ∈ us, ∀ u ∈ r, (0 : α) ≤ u) :
+    ∃ ps, simulateIndices P.length (pathDense (cdfsDense P)) init reps drawn ts us
+        = .ok (some ⟨docDim init reps, ps⟩) ∧
+      ps.length = docK init reps ∧
+      ∀ j, j < docK init reps → ∃ p s0, ps[j]? = some p ∧ requested P.length drawn init j = some s0 ∧
+        p.length = ts ∧ p[0]? = some s0 ∧ (∀ x ∈ p, x < P.length) ∧
+        ∀ t, t + 1 < ts → ∃ a b, ∃ (ha : a < P.length) (hb : b < P[a].length),
+          p[t]? = some a ∧ p[t + 1]? = some b ∧ 0 < P[a][b] := by
+  have hlenc : (cdfsDense P).length = P.length := by simp [cdfsDense]
+  have h := simulate_indices_valid_dense (cdfsDense P) (cdfsDense_square P hsq) init reps drawn ts us
+    (by rw [hlenc]; exact hok) (by rw [hlenc]; exact hdrawn) hts hk hrow
+  rw [hlenc] at h
+  obtain ⟨ps, hps, hlen, hall⟩ := h
+  refine ⟨ps, hps, hlen, ?_⟩
+  intro j hj
+  obtain ⟨p, s0, u, hp, hu, hreq, hpath, hplen, hpall⟩ := hall j hj
+  have hs0 : s0 < P.length := by
+    have h0 := hpath.2.1
+    exact hpall s0 (List.mem_of_getElem? h0)
+  have hu_mem : u ∈ us := List.mem_of_getElem? hu
+  obtain ⟨p', hp', hl', hh', ha', hf'⟩ :=
+    path_transitions_positive_dense hadd0 P hsq hnn htot s0 hs0 u (hus u hu_mem)
+  have hpp : p = p' := hpath.unique (pathFrom_isPathOf _ _ _ _ hp')
+  subst hpp
+  refine ⟨p, s0, hp, hreq, hplen, hh', hpall, ?_⟩
+  intro t ht
+  exact hf' t (by have := hrow u hu_mem; omega)
+
+/-- **Every chain the constructor accepts: the whole of `simulate_indices`** (exact arithmetic).
+    Accepted matrix, acceptable request, `ts ≥ 1`, nonnegative uniforms of the documented shape:
+    documented `dim`/`k`; every path starts at its requested state (negative indices normalised, arrays
+    tiled, drawn states for `None`), stays in the state space and uses only positive-probability
+    transitions. -/
+theorem accepted_chain_simulate_indices_follows_law (P : List (List Rat)) (hacc : acceptChain P = .ok ())
+    (init : Init) (reps : Option Nat) (drawn : List Nat) (ts : Nat) (us : List (List Rat))
+    (hok : InitOK P.length init reps)
+    (hdrawn : init = .none → docK init reps ≤ drawn.length ∧ ∀ d ∈ drawn, d < P.length)
+    (hts : 0 < ts) (hk : us.length = docK init reps) (hrow : ∀ r ∈ us, r.length + 1 = ts)
+    (hus : ∀ r ∈ us, ∀ u ∈ r, (0 : Rat) ≤ u) :
+    ∃ ps, simulateIndices P.length (pathDense (cdfsDense P)) init reps drawn ts us
+        = .ok (some ⟨docDim init reps, ps⟩) ∧
+      ps.length = docK init reps ∧
+      ∀ j, j < docK init reps → ∃ p s0, ps[j]? = some p ∧ requested P.length drawn init j = some s0 ∧
+        p.length = ts ∧ p[0]? = some s0 ∧ (∀ x ∈ p, x < P.length) ∧
+        ∀ t, t + 1 < ts → ∃ a b, ∃ (ha : a < P.length) (hb : b < P[a].length),
+          p[t]? = some a ∧ p[t + 1]? = some b ∧ 0 < P[a][b] := by
+  obtain ⟨h1, h2, _⟩ := (acceptChain_ok_iff P).mp hacc
+  exact simulate_indices_follows_law_dense (fun x => add_zero x) P h1 h2
+    (fun row hr hc => cumsum_getLast_pos (fun _ _ hp => le_add_of_nonneg_right hp)
+      (fun _ _ hx => le_add_of_nonneg_left hx) row (h2 row hr) (accepted_row_has_pos P hacc row hr) hc)
+    init reps drawn ts us hok hdrawn hts hk hrow hus
+
+/-- non-vacuity: two tiled paths on an accepted 2-state chain with a zero entry, negative init -/
+example : acceptChain [[1/2, 1/2], [1, 0]] = .ok () := by decide +kernel
+example : InitOK 2 (.arr [-1]) (some 2) := by simp [InitOK, inRange]
+example : (match simulateIndices 2 (pathDense (cdfsDense ([[1/2, 1/2], [1, 0]] : List (List Rat)))) (.arr [-1])
+    (some 2) [] 3 [[0, 3/4], [1/2, 0]] with | .ok (some r) => r.paths | _ => []) = [[1, 0, 1], [1, 0, 0]] := by
+  decide +kernel
+
+/-- **`mc_sample_path` on every accepted chain, full clause** (exact arithmetic).  `init` is a state
+    in `[0, n)`, or an initial distribution of length `n` with nonnegative entries, one of them positive,
+    and `u_0 ≥ 0`; `sample_size = ts ≥ 1`; `ts−1` nonnegative uniforms.  The call returns one path of
+    length `ts`; it starts at the requested state, resp. at a state `X_0` that carries positive initial
+    mass (`init[X_0] > 0`, the `searchsorted_cdf` image of `u_0`); it stays in the state space and every
+    transition has positive probability. -/
+theorem accepted_chain_mc_sample_path_follows_law (P : List (List Rat)) (hacc : acceptChain P = .ok ())
+    (init : McInit Rat)
+    (hinit : match init with
+      | .state i => 0 ≤ i ∧ i < (P.length : Int)
+      | .dist d u0 => d.length = P.length ∧ (∀ x ∈ d, (0 : Rat) ≤ x) ∧ (∃ x ∈ d, (0 : Rat) < x) ∧ 0 ≤ u0)
+    (ts : Nat) (hts : 0 < ts) (u : List Rat) (hu : u.length + 1 = ts) (hus : ∀ x ∈ u, (0 : Rat) ≤ x) :
+    ∃ (p : List Nat) (x0 : Nat), mcSamplePath P init ts [u] = .ok (some ⟨1, [p]⟩) ∧ p.length = ts ∧
+      p[0]? = some x0 ∧
+      (match init with
+        | .state i => (x0 : Int) = i
+        | .dist d u0 => x0 = searchsortedCdf (cumsum d) u0 ∧ ∃ h : x0 < d.length, 0 < d[x0]) ∧
+      (∀ x ∈ p, x < P.length) ∧
+      ∀ t, t + 1 < ts → ∃ a b, ∃ (ha : a < P.length) (hb : b < P[a].length),
+        p[t]? = some a ∧ p[t + 1]? = some b ∧ 0 < P[a][b] := by
+  obtain ⟨h1, h2, _⟩ := (acceptChain_ok_iff P).mp hacc
+  -- common part, once `mcSamplePath_valid` applies
+  have core : ∀ (ini : McInit Rat),
+      (∃ p, mcSamplePath P ini ts [u] = .ok (some ⟨1, [p]⟩) ∧ p.length = ts ∧
+        p[0]? = some (mcX0 ini).toNat ∧ (∀ x ∈ p, x < P.length) ∧
+        IsPathOf (denseStep (cdfsDense P)) (mcX0 ini).toNat u p) →
+      ∃ p, mcSamplePath P ini ts [u] = .ok (some ⟨1, [p]⟩) ∧ p.length = ts ∧
+        p[0]? = some (mcX0 ini).toNat ∧ (∀ x ∈ p, x < P.length) ∧
+        ∀ t, t + 1 < ts → ∃ a b, ∃ (ha : a < P.length) (hb : b < P[a].length),
+          p[t]? = some a ∧ p[t + 1]? = some b ∧ 0 < P[a][b] := by
+    intro ini ⟨p, hp, hlen, hhead, hall, hpath⟩
+    have hs0 : (mcX0 ini).toNat < P.length := hall _ (List.mem_of_getElem? hhead)
+    obtain ⟨p', hp', _, _, _, hf'⟩ := path_follows_transition_law_dense_rat P h1 h2
+      (accepted_row_has_pos P hacc) (mcX0 ini).toNat hs0 u hus
+    have hpp : p = p' := hpath.unique (pathFrom_isPathOf _ _ _ _ hp')
+    subst hpp
+    exact ⟨p, hp, hlen, hhead, hall, fun t ht => hf' t (by omega)⟩
+  cases init with
+  | state i =>
+    obtain ⟨p, hp, hlen, hhead, hall, hf⟩ := core (.state i) (mcSamplePath_valid P h1 (.state i) hinit ts hts u hu)
+    refine ⟨p, (mcX0 (.state i)).toNat, hp, hlen, hhead, ?_, hall, hf⟩
+    show ((mcX0 (McInit.state i : McInit Rat)).toNat : Int) = i
+    simp only [mcX0]
+    exact Int.toNat_of_nonneg hinit.1
+  | dist d u0 =>
+    obtain ⟨hl, hnn, hex, hu0⟩ := hinit
+    have hne : d ≠ [] := by obtain ⟨x, hx, _⟩ := hex; exact List.ne_nil_of_mem hx
+    obtain ⟨p, hp, hlen, hhead, hall, hf⟩ :=
+      core (.dist d u0) (mcSamplePath_valid P h1 (.dist d u0) ⟨hl, hne⟩ ts hts u hu)
+    have hx0 : (mcX0 (.dist d u0)).toNat = searchsortedCdf (cumsum d) u0 := by
+      simp only [mcX0, searchsortedCdfPy_of_ne _ _ (cumsum_ne_nil hne)]
+      exact Int.toNat_natCast _
+    refine ⟨p, (mcX0 (.dist d u0)).toNat, hp, hlen, hhead, ⟨hx0, ?_⟩, hall, hf⟩
+    rw [hx0]
+    exact searchsortedCdf_mass_pos (fun x => add_zero x) d u0 hnn hu0
+      (fun hc => cumsum_getLast_pos (fun _ _ hp => le_add_of_nonneg_right hp)
+        (fun _ _ hx => le_add_of_nonneg_left hx) d hnn hex hc) hne
+
+example : (match mcSamplePath ([[1/2, 1/2], [1, 0]] : List (List Rat)) (.dist [0, 1] (999/1000)) 3 [[0, 3/4]] with
+    | .ok (some r) => r.paths | _ => []) = [[1, 0, 1]] := by decide +kernel
+
+/-! ## 13. `simulate` by state value, after any history -/
+
+/-- **`simulate(init=<value>)` starts at the requested value.**  Dense chain with a square cdf array of
+    `n` rows, `state_values = sv` of length `n`, a value `v` that occurs in `sv`, `ts ≥ 1`, any `ts−1`
+    numbers.  The call returns a 1-D array of `ts` state values: the annotation `sv[p[t]]` of a path `p`
+    that starts at the *first* position `i` holding `v` (so the first returned value is `v` itself),
+    stays in the state space and follows the kernel step. -/
+theorem simulate_by_value_valid_dense [LT α] [DecidableLT α] [BEq α] (cdfs : List (List α))
+    (hsq : ∀ row ∈ cdfs, row.length = cdfs.length) (sv : List Int) (hsv : sv.length = cdfs.length)
+    (v : Int) (hv : v ∈ sv) (ts : Nat) (hts : 0 < ts) (u : List α) (hu : u.length + 1 = ts) :
+    ∃ (p : List Nat) (i : Nat), ∃ hi : i < sv.length,
+      simulateSV sv cdfs.length (pathDense cdfs) (.scalar v) none [] ts [u]
+        = .ok (some (1, [p.map fun s => sv.getD s 0])) ∧
+      sv[i] = v ∧ (∀ j (hj : j < i), sv[j] ≠ v) ∧
+      p.length = ts ∧ p[0]? = some i ∧ (p.map fun s => sv.getD s 0)[0]? = some v ∧
+      (∀ x ∈ p, x < cdfs.length) ∧ IsPathOf (denseStep cdfs) i u p := by
+  obtain ⟨i, hlook, hi, hval, hfirst⟩ := (getIndexSV_scalar sv v).2 hv
+  have hin : (0 : Int) ≤ Int.ofNat i ∧ Int.ofNat i < (cdfs.length : Int) := by
+    constructor
+    · exact Int.natCast_nonneg i
+    · have : i < cdfs.length := by omega
+      exact Int.ofNat_lt.mpr this
+  have hok : InitOK cdfs.length (.scalar (Int.ofNat i)) none := by
+    simp only [InitOK, inRange, Bool.and_eq_true, decide_eq_true_eq]
+    omega
+  obtain ⟨ps, hps, hk, hall⟩ := simulate_indices_valid_dense cdfs hsq (.scalar (Int.ofNat i)) none [] ts [u]
+    hok (fun h => by cases h) hts rfl (fun r hr => by simp at hr; rw [hr]; exact hu)
+  simp only [docK] at hk hall
+  obtain ⟨p, s0, u', hp, hu', hreq, hpath, hplen, hpall⟩ := hall 0 (by omega)
+  have hps1 : ps = [p] := by
+    cases ps with
+    | nil => simp at hk
+    | cons a rest =>
+      cases rest with
+      | nil => simp at hp; rw [hp]
+      | cons _ _ => simp at hk
+  simp at hu'
+  subst hu'
+  simp only [requested, Option.some.injEq] at hreq
+  have hs0 : s0 = i := by
+    rw [← hreq, norm_of_nonneg _ _ hin.1 hin.2]; rfl
+  subst hs0
+  subst hps1
+  have hinr : ∀ q ∈ [p], ∀ s ∈ q, s < sv.length := by
+    intro q hq s hs
+    simp at hq; subst hq
+    have := hpall s hs; omega
+  obtain ⟨hsim, _⟩ := simulate_with_state_values sv cdfs.length (pathDense cdfs) (.scalar v)
+    (.scalar (Int.ofNat s0)) none [] ts [u] ⟨docDim (.scalar (Int.ofNat s0)) none, [p]⟩ hlook hps hinr
+  refine ⟨p, s0, hi, ?_, hval, hfirst, hplen, hpath.2.1, ?_, hpall, hpath⟩
+  · simpa [docDim] using hsim
+  · have h0 := hpath.2.1
+    rw [List.getElem?_map, h0]
+    simp only [Option.map_some, Option.some.injEq]
+    rw [List.getD_eq_getElem?_getD, List.getElem?_eq_getElem hi]
+    exact hval
+
+/-- **… after any history.**  Whatever sequence `h` of `state_values` assignments and calls preceded
+    it on this object: if the labels *currently* in force are `sv` (`svOnly`: the last accepted
+    assignment), `simulate(init=v)` answers as in `simulate_by_value_valid_dense` for `sv` — it starts
+    at the first position of `v` in the current labelling, never at a position remembered from an
+    earlier one. -/
+theorem simulate_by_value_after_history [LT α] [DecidableLT α] [BEq α] (cdfs : List (List α))
+    (hsq : ∀ row ∈ cdfs, row.length = cdfs.length) (sv0 : Option (List Int)) (h : List (HOp α))
+    (sv : List Int) (hcur : svOnly cdfs.length sv0 (assignments h) = some sv)
+    (hsv : sv.length = cdfs.length) (v : Int) (hv : v ∈ sv) (ts : Nat) (hts : 0 < ts) (u : List α)
+    (hu : u.length + 1 = ts) :
+    ∃ (p : List Nat) (i : Nat), ∃ hi : i < sv.length,
+      (runH cdfs.length (pathDense cdfs) sv0 (h ++ [.call true (.ok (.scalar v)) none [] ts [u]])).getLast?
+        = some (.vals (.ok (some (1, [p.map fun s => sv.getD s 0])))) ∧
+      sv[i] = v ∧ (∀ j (hj : j < i), sv[j] ≠ v) ∧ p.length = ts ∧ p[0]? = some i ∧
+      (p.map fun s => sv.getD s 0)[0]? = some v ∧ (∀ x ∈ p, x < cdfs.length) := by
+  obtain ⟨p, i, hi, hsim, h1, h2, h3, h4, h5, h6, _⟩ :=
+    simulate_by_value_valid_dense cdfs hsq sv hsv v hv ts hts u hu
+  refine ⟨p, i, hi, ?_, h1, h2, h3, h4, h5, h6⟩
+  rw [(history_call_depends_only_on_current_state _ _ sv0 h _).1, hcur]
+  simp only [List.getLast?_append, List.getLast?_singleton, Option.some_or]
+  show some (HOut.vals (simulateSV sv cdfs.length (pathDense cdfs) (.scalar v) none [] ts [u])) = _
+  rw [hsim]
+
+/-- non-vacuity: labels `[7, 9]`, a call by value, the labels permuted, the same call again -/
+example : svOnly 2 (some [7, 9]) (assignments
+    ([.call true (.ok (.scalar 9)) none [] 1 [[]], .setSV (some [9, 7])] : List (HOp Int))) = some [9, 7] := by rfl
+example : simulateSV [9, 7] 2 (pathDense ([[1, 4], [4, 4]] : List (List Int))) (.scalar 9) none [] 3 [[0, 4]]
+    = .ok (some (1, [[9, 9, 7]])) := by decide +kernel
+example : simulateSV [7, 9] 2 (pathDense ([[1, 4], [4, 4]] : List (List Int))) (.scalar 9) none [] 3 [[0, 4]]
+    = .ok (some (1, [[9, 7, 9]])) := by decide +kernel
+
+/-! ## 14. the remaining entry points at full strength (exact arithmetic) -/
+
+/-- **`simulate_indices` (CSR), every path, full clause.**  Canonical CSR arrays, nonnegative stored
+    masses, positive row totals, acceptable request, `ts ≥ 1`, a `(k, ts−1)` array of nonnegative
+    numbers: documented `dim`/`k`; every path has length `ts`, starts at its requested state, stays in
+    the state space, and each transition `a → b` uses an entry `q` stored in row `a` with column `b`
+    and `data[q] > 0`. -/
+theorem simulate_indices_follows_law_sparse [LinearOrder α] [Add α] [Zero α]
+    (hadd0 : ∀ x : α, x + 0 = x) {n : Nat} {data : List α} {indices indptr : List Nat}
+    (hc : CsrCanon n data indices indptr) (hnn : ∀ x ∈ data, (0 : α) ≤ x)
+    (htot : ∀ s, s < n → ∀ h : rowCum data indptr s ≠ [], 0 < (rowCum data indptr s).getLast h)
+    (init : Init) (reps : Option Nat) (drawn : List Nat) (ts : Nat) (us : List (List α))
+    (hok : InitOK n init reps)
+    (hdrawn : init = .none → docK init reps ≤ drawn.length ∧ ∀ d ∈ drawn, d < n)
+    (hts : 0 < ts) (hk : us.length = docK init reps) (hrow : ∀ r ∈ us, r.length + 1 = ts)
+    (hus : ∀ r ∈ us, ∀ u ∈ r, (0 : α) ≤ u) :
+    ∃ ps, simulateIndices n (pathSparse (cdfs1d data indptr n) indices indptr) init reps drawn ts us
+        = .ok (some ⟨docDim init reps, ps⟩) ∧
+      ps.length = docK init reps ∧
+      ∀ j, j < docK init reps → ∃ p s0, ps[j]? = some p ∧ requested n drawn init j = some s0 ∧
+        p.length = ts ∧ p[0]? = some s0 ∧ (∀ x ∈ p, x < n) ∧
+        ∀ t, t + 1 < ts → ∃ a b q, ∃ (hd : q < data.length) (hi : q < indices.length),
+          p[t]? = some a ∧ p[t + 1]? = some b ∧ indptr.getD a 0 ≤ q ∧ q < indptr.getD (a + 1) 0 ∧
+          indices[q] = b ∧ 0 < data[q] := by
+  obtain ⟨ps, hps, hlen, hall⟩ :=
+    simulate_indices_valid_sparse_canon hc init reps drawn ts us hok hdrawn hts hk hrow
+  refine ⟨ps, hps, hlen, ?_⟩
+  intro j hj
+  obtain ⟨p, s0, u, hp, hu, hreq, hpath, hplen, hpall⟩ := hall j hj
+  have hs0 : s0 < n := hpall s0 (List.mem_of_getElem? hpath.2.1)
+  have hu_mem : u ∈ us := List.mem_of_getElem? hu
+  obtain ⟨p', hp', _, hh', _, hf'⟩ :=
+    path_transitions_positive_sparse hadd0 hc hnn htot s0 hs0 u (hus u hu_mem)
+  have hpp : p = p' := hpath.unique (pathFrom_isPathOf _ _ _ _ hp')
+  subst hpp
+  refine ⟨p, s0, hp, hreq, hplen, hh', hpall, ?_⟩
+  intro t ht
+  obtain ⟨a, b, q, hd, hi, h1, h2, h3, h4, _, h6, h7⟩ := hf' t (by have := hrow u hu_mem; omega)
+  exact ⟨a, b, q, hd, hi, h1, h2, h3, h4, h6, h7⟩
+
+/-- **`DiscreteRV.draw`, full clause** (exact arithmetic): `q` nonnegative with a positive entry, any
+    number of uniforms `≥ 0`.  One index per uniform; the `t`-th is `searchsorted_cdf(cumsum q, us[t])`
+    (characterised by `step_inverse_cdf_rat`), lies in `range(len q)` and has `q[index] > 0`. -/
+theorem drv_draw_follows_law_rat (q us : List Rat) (hq : ∀ x ∈ q, (0 : Rat) ≤ x)
+    (hex : ∃ x ∈ q, (0 : Rat) < x) (hus : ∀ u ∈ us, (0 : Rat) ≤ u) :
+    ∃ idx, drvDraw q us = some idx ∧ idx.length = us.length ∧
+      ∀ t (ht : t < us.length), ∃ j, idx[t]? = some j ∧ j = searchsortedCdf (cumsum q) us[t] ∧
+        ∃ hj : j < q.length, 0 < q[j] := by
+  have hne : q ≠ [] := by obtain ⟨x, hx, _⟩ := hex; exact List.ne_nil_of_mem hx
+  have hlast := cumsum_getLast_pos (fun (_ : Rat) _ hp => le_add_of_nonneg_right hp)
+    (fun _ _ hx => le_add_of_nonneg_left hx) q hq hex (cumsum_ne_nil hne)
+  obtain ⟨h1, h2⟩ := drvDraw_valid (fun x => add_zero x) (fun _ _ hp => le_add_of_nonneg_right hp)
+    q us hq hne hlast hus
+  refine ⟨_, h1, by simp, ?_⟩
+  intro t ht
+  refine ⟨searchsortedCdf (cumsum q) us[t], by simp [ht], rfl, h2 _ (List.getElem_mem ht)⟩
+
+example : drvDraw ([1/4, 0, 3/4, 0] : List Rat) [0, 1/4, 999/1000, 1, 5] = some [0, 2, 2, 2, 2] := by
+  decide +kernel
+
+/-- **`random.draw(cumsum q, size)`, full clause** (exact arithmetic): same hypotheses; every returned
+    index is the natural number `searchsorted_cdf(cumsum q, u)` for its uniform, lies in `range(len q)`
+    and carries positive mass — so `random.draw` and `DiscreteRV.draw` return the same indices. -/
+theorem random_draw_follows_law_rat (q us : List Rat) (hq : ∀ x ∈ q, (0 : Rat) ≤ x)
+    (hex : ∃ x ∈ q, (0 : Rat) < x) (hus : ∀ u ∈ us, (0 : Rat) ≤ u) :
+    draw (cumsum q) us = us.map (fun u => ((searchsortedCdf (cumsum q) u : Nat) : Int)) ∧
+    (∀ u ∈ us, ∃ hj : searchsortedCdf (cumsum q) u < q.length, 0 < q[searchsortedCdf (cumsum q) u]) ∧
+    drvDraw q us = some (us.map (searchsortedCdf (cumsum q))) := by
+  have hne : q ≠ [] := by obtain ⟨x, hx, _⟩ := hex; exact List.ne_nil_of_mem hx
+  have hlast := cumsum_getLast_pos (fun (_ : Rat) _ hp => le_add_of_nonneg_right hp)
+    (fun _ _ hx => le_add_of_nonneg_left hx) q hq hex (cumsum_ne_nil hne)
+  obtain ⟨h1, h2⟩ := drvDraw_valid (fun x => add_zero x) (fun _ _ hp => le_add_of_nonneg_right hp)
+    q us hq hne hlast hus
+  refine ⟨?_, h2, h1⟩
+  unfold draw
+  apply List.map_congr_left
+  intro u _
+  exact searchsortedCdfPy_of_ne _ _ (cumsum_ne_nil hne)
+
+example : draw (cumsum ([1/4, 0, 3/4, 0] : List Rat)) [0, 1/4, 999/1000, 1, 5] = [0, 2, 2, 2, 2] := by
+  decide +kernel
 
 end QE.C10
